@@ -202,3 +202,53 @@ world.prewarm(
     lambda: fix_case("[c0, c1]", "[n0, n1]", {"c0": 1, "c1": 2, "n0": 1, "n1": 3}, 1, 1),
     lambda: fix_case("P(a=c0)", "P(a=n0, b=n1)", {"c0": 1, "n0": 1, "n1": 3}, 1, 2),
 )
+
+
+def replay(tier, condname, cex):
+    """R2: the harness function concretely (real repr, real black, templates instantiated with literals);
+    then R1 where the scenario has a plain-pytest form: the instantiated project in a real `pytest --inline-snapshot=create,fix`
+    process followed by `--inline-snapshot=disable` (no stub of any kind)."""
+    import inspect
+
+    from vlib.common import generic_replay
+
+    conds = {c.name: c for c in conditions(tier)}
+    fn = conds[condname].fn
+    r2 = generic_replay(fn, cex)
+    out = dict(r2)
+    try:
+        sig = inspect.signature(fn)
+        ba = sig.bind(*cex.get("args", []), **cex.get("kwargs", {}))
+        src = fn.__verif_src__
+        import re
+
+        m = re.search(r"fix_case\((?P<old>'[^']*'|\"[^\"]*\"), (?P<new>'[^']*'|\"[^\"]*\"), \{(?P<d>[^}]*)\}, (?P<e>[^,]+, [^,]+), (?P<full>True|False)\)", src)
+        if m:
+            old_src, new_src = eval(m.group("old")), eval(m.group("new"))
+            vals = dict(ba.arguments)
+            full = m.group("full") == "True"
+            prelude = "from inline_snapshot import snapshot\nfrom harness.support import *\n\n" + "".join(f"{k} = {v!r}\n" for k, v in vals.items() if k not in ("e0", "e1"))
+            if full:
+                prelude += f"c9 = {vals['e0']!r}\nx9 = {vals['e1']!r}\n"
+            prelude += f"new = {new_src}\n\n"
+            inst = world.instantiate(old_src, {k: v for k, v in vals.items()})
+            if full:
+                body = f"def test_a():\n    assert x9 == snapshot({vals['e0']!r})\n    assert new == snapshot({inst})\n    assert x9 == snapshot()\n"
+            else:
+                body = f"def test_a():\n    assert new == snapshot({inst})\n"
+            text = prelude + body
+            env = {"PYTHONPATH": world_repo_src() + ":/verif"}
+            rc1, out1, after, _ = world.real_pytest({"test_a.py": text}, ["--inline-snapshot=create,fix"], env=env)
+            rc2, out2, _, _ = world.real_pytest({"test_a.py": after["test_a.py"]}, ["--inline-snapshot=disable"], env=env)
+            out["r1"] = {"second_run_with_disable_passes": rc2 == 0, "rewritten": after["test_a.py"][-400:], "tail": out2[-300:]}
+            out["files"] = {"r1_project/test_a.py": text, "r1_project/test_a.after.py": after["test_a.py"]}
+            out["detail"] = str(out.get("detail")) + f" | R1 (real pytest create,fix then disable): {'reproduced' if rc2 != 0 else 'NOT reproduced'}"
+    except Exception as e:  # R1 is additional evidence only
+        out["r1_error"] = repr(e)
+    return out
+
+
+def world_repo_src():
+    from vlib.common import REPO_SRC
+
+    return REPO_SRC
